@@ -13,7 +13,7 @@ class C02Kernel(KernelProp):
     n_ops = (12, 45)
     weights = {"new": 14, "cancelget": 1, "enter": 12, "exit": 4, "add": 18, "addf": 10, "getnw": 14, "get": 8, "finish": 2,
                "getall": 14, "addtd": 1, "current": 1, "parent": 2, "spawn": 2, "state": 1, "inject": 3}
-    gen_kwargs = {"max_ctx": 8, "malformed": 0.02, "wrong_state": 0.03, "exc_end": 0.2}
+    gen_kwargs = {"max_ctx": 8, "malformed": 0.02, "wrong_state": 0.03, "exc_end": 0.2, "p_comp": 0.25}
     rule = ("context trees up to depth 6 / 8 contexts entered from up to 3 tasks, adds and factory registrations "
             "interleaved with child creation, 1-3 types per resource, all lookup APIs incl. shortcuts, get_resources and "
             "inject. Non-trivial: >=3 contexts, an add after a child of that context was created, and a lookup or "
